@@ -101,6 +101,7 @@ def check_seq(bi, seq, acc, cid="cfg"):
         top_ids = [p.id for p in cur.propositions]
         must_refuse = rule.id in top_ids
         acc.n("transitions")
+        f_rule = fingerprint(rule)
         try:
             nxt = cur.add(rule)
             refused = False
@@ -118,6 +119,9 @@ def check_seq(bi, seq, acc, cid="cfg"):
         if refused and not must_refuse:
             acc.violation(None, case, dict(desc, what="a rule with a fresh id was refused", position=pos, rule_id=repr(rule.id),
                                            top_level_ids=list(map(repr, top_ids))))
+            return
+        if fingerprint(rule) != f_rule:
+            acc.violation(None, case, dict(desc, what="add() changed the rule object it was given", position=pos, diff=diff(f_rule, fingerprint(rule))))
             return
         # nothing reachable before the call may have changed
         for n_, (c_, f_) in enumerate(chain):
